@@ -7,7 +7,8 @@ from props.qcommon import *
 RECL_QUICK = [('HPs<3>', '_hp'), ('EBR', '_ebr'), ('LFRC', '_lfrc')]
 RECL_ALL = RECL_QUICK + [('HEs<3>', '_he'), ('NEBR', '_nebr'), ('DEBRA', '_debra'), ('QSBR', '_qsbr'), ('STAMP', '_stamp')]
 def harnesses(tier):
-    return [('uq', ('XV_RECL=%s' % r,) + (('XV_NO_KF',) if r == 'LFRC' else ()), False, sfx) for r, sfx in (RECL_ALL if tier == 'thorough' else RECL_QUICK)] + [('vyu', (), False, '')]
+    return [('uq', ('XV_RECL=%s' % r,) + (('XV_NO_KF',) if r == 'LFRC' else ()), False, sfx) for r, sfx in (RECL_ALL if tier == 'thorough' else RECL_QUICK)] + [('vyu', (), False, ''), ('uq', ('XV_RECL=GC',), False, '_gc')]
+PROPERTY_FILES = ['Properties_C07', 'Properties_C04_ram']
 HARNESSES = harnesses('quick')
 ASSUMPTIONS = [
     'element kinds: Obj (non-trivial movable owning a heap token), std::unique_ptr<Tok>, raw Tok*, small int; every token is a tracked heap block: a second destruction is a double free caught by the xvrt allocator, a leak is a live token after the queue is destroyed',
@@ -25,6 +26,11 @@ def run(ctx):
     thorough = tier == 'thorough'
     Hs = ctx['H']
     run_corpus(ctx, Hs['uq_hp'], 'C07')
+    # ---- tie of the ramalhete model (its conservation / destructor theorems are part of this property's evidence)
+    Hgc = Hs.pop('uq_gc')
+    rcases = [({'q': 'ram', 'elem': 'ptr', 'epn': str(epn), 'retries': str(ret)}, queue_program(rng, 2 + k % 2, 3 + k)) for k, (epn, ret) in enumerate(((1, 0), (2, 1), (3, 1)))]
+    st2 = do_correspondence(ctx, 'ram', Hgc, rcases, 6 if thorough else 4, 'ramalhete')
+    tie = tie_broken_sig(st2, 'ram')
     n = 2000 if thorough else 250
     for name, H in sorted(Hs.items()):
         jobs = []
@@ -50,4 +56,4 @@ def run(ctx):
             # atomic store and the plain accesses that follow it, the race detector sees them regardless of the interleaving)
             jobs.append((dict({'q': q, 'elem': elem, 'drain': '1', 'race': '1'}, **extra), queue_program(rng, 3, 3, pushy=0.6), 'random', n // 2, ctx['seed'] + 3, ()))
         do_search(ctx, H, jobs, name, classify=lambda c, h, f, name=name: {'harness': name})
-    return None
+    return tie
